@@ -18,6 +18,7 @@ EXPLANATION = (
     "index-wise the offspring iff it is strictly better than the parent, with an error (not a panic) on unequal "
     "sizes; an implementation without a named specification is held to the subset-without-duplication clause only. "
     "NOT decided: the uniformity of RandomReplacement's choice.")
+EXPLANATION += " " + '(R1 revised) as C11.R2: real stack with populations underneath (parents = the one below the top), stack and generator owned by the current or the enclosing scope.'
 ASSUMPTIONS = ["sort_unstable_by_key sorts by the given key; SliceRandom::shuffle permutes"]
 
 REPL = "mahf::components::replacement::"
